@@ -114,7 +114,17 @@ def concrete_verdict(h, inp_json, out_json):
 def _same_json(a, b):
     if isinstance(a, dict) and isinstance(b, dict) and "exc" in a and "exc" in b:
         return a["exc"] == b["exc"]       # exception type; messages are not modelled
-    return json.dumps(a, sort_keys=True) == json.dumps(b, sort_keys=True)
+    return _wild_eq(a, b)
+
+def _wild_eq(real, pred):
+    """deep equality; a float predicted through an uninterpreted reducer matches any real float"""
+    if pred == symcodec.UF_WILDCARD:
+        return isinstance(real, str)
+    if isinstance(pred, dict) and isinstance(real, dict):
+        return pred.keys() == real.keys() and all(_wild_eq(real[k], pred[k]) for k in pred)
+    if isinstance(pred, list) and isinstance(real, list):
+        return len(pred) == len(real) and all(_wild_eq(r, p) for r, p in zip(real, pred))
+    return type(pred) is type(real) and pred == real
 
 def make_path_fn(h, known_regions, do_replay=True):
     def fn(ctx):
@@ -159,7 +169,12 @@ def make_path_fn(h, known_regions, do_replay=True):
             rr = replay(h.opname, res["witness"])
             real = rr["out"]
             res["witness_conforms"] = _same_json(real, pred_w) or bool(h.conformance_ignore(real, pred_w))
-            if not res["witness_conforms"]:
+            if not res["witness_conforms"] and any(symcodec._has_uf(c) for c in ctx.pc):
+                # the path condition constrains the value of an uninterpreted NumPy reducer (np.mean, ...):
+                # the witness fixes an arbitrary value for it, so the real run need not follow this path
+                res["witness_conforms"] = None
+                res["witness_unvalidated"] = "path condition depends on an uninterpreted reducer"
+            if res["witness_conforms"] is False:
                 res["witness_real"] = real
                 res["witness_pred"] = pred_w
             holds, bad = concrete_verdict(h, res["witness"], real)
